@@ -174,7 +174,7 @@ class Gen:
         if self.p(.25):
             s += "!" + self.ch("sra")
         if self.p(.3):
-            spec = self.ch(["", ">10", "x", ".2f", " ", "{w}", "{w}.{p}", ">{w}", "{a!r:>{b}}" if False else "{a!r}", "%Y-%m", "é", "0>+#10,.3f", "{{" if False else "<", "a b", ":", "::", "!r", "=10", "=^10", "=+8", "=", "=>{w}", "!=5", "<=5", "==10"])
+            spec = self.ch(["", ">10", "x", ".2f", " ", "{w}", "{w}.{p}", ">{w}", "{a!r:>{b}}" if False else "{a!r}", "%Y-%m", "é", "0>+#10,.3f", "{{" if False else "<", "a b", ":", "::", "!r", "=10", "=^10", "=+8", "=", "=>{w}", "!=5", "<=5", "==10", "{{1:2}[1]}", ">{{1:5}[1]}", "{{y}}", "{ {1}}.{{2}}"])
             s += ":" + spec
         return s + "}"
 
